@@ -658,6 +658,34 @@ def same_result(r1, r2):
     return type(r1) is type(r2) and r1 == r2
 
 
+def scribble(arr):
+    """what a caller may do with an array it was handed: change it in place.  -> False when it cannot be written"""
+    if not isinstance(arr, np.ndarray) or not arr.flags.writeable or arr.size == 0:
+        return False
+    if arr.dtype.kind == "f":
+        arr *= -3.0
+        arr += 11.5
+    elif arr.dtype.kind in "iu":
+        arr[...] = -7 if arr.dtype.kind == "i" else 7
+    elif arr.dtype.kind == "b":
+        np.logical_not(arr, out=arr)
+    else:
+        return False
+    return True
+
+
+def owned_verdict(first, snap, again, what):
+    """first: the array returned by the first call (scribbled on meanwhile); snap: its copy as returned; again: the result of
+    an equal call.  -> (symptom, detail) or (None, None)"""
+    if isinstance(again, np.ndarray) and isinstance(first, np.ndarray) and (again is first or np.shares_memory(again, first)):
+        return "result-not-caller-owned", f"{what} returned an array that shares memory with the array returned before (which the caller had changed in place meanwhile)"
+    if not same_result(snap, again):
+        if isinstance(first, np.ndarray) and same_result(first, again):
+            return "result-not-caller-owned", f"{what} returned the values the caller had written into the earlier result"
+        return "repeated-call-differs", f"{what} returned a different result than the first call"
+    return None, None
+
+
 def grid_case(ctx, agg, r1, r2, pad, sp, dtype, argkind="list"):
     o1, src1 = make_corner(r1, argkind, dtype)
     o2, src2 = make_corner(r2, argkind, dtype)
@@ -693,16 +721,31 @@ def grid_case(ctx, agg, r1, r2, pad, sp, dtype, argkind="list"):
         changed = [n for n, o, sn in (("r1", o1, s1), ("r2", o2, s2)) if not same_as_snapshot(o, sn)]
         if changed:
             sym, det = f"caller-input-mutated[{'+'.join(changed)}]", f"the caller's {' and '.join(changed)} changed during the call: now r1={np.asarray(o1).tolist()}, r2={np.asarray(o2).tolist()}"
-    if not sym and argkind != "list":
-        # history independence: the same call with the same caller objects gives the same grid
-        ctx.count(evaluations=1, traces=1, transitions=1)
-        try:
-            again = gb.rectangular_grid(o1, o2, padding=pad, spacing=sp, dtype=dtype)
-        except Exception as e:
-            sym, det = f"repeated-call-raised-{type(e).__name__}", f"the second identical call raised {type(e).__name__}: {e}"
-        else:
-            if not same_result(got, again):
-                sym, det = "repeated-call-differs", f"the second identical call returned {getattr(again, 'shape', None)} points spanning {again.min(axis=0).tolist()}..{again.max(axis=0).tolist()}, the first {got.shape} spanning {got.min(axis=0).tolist()}..{got.max(axis=0).tolist()}"
+    if not sym:
+        # the result belongs to the caller, and the call does not depend on history: the caller changes the returned grid in
+        # place, then asks again - with the same corner objects, and with equal corners handed in as another kind of object
+        counts0 = det
+        snap = got.copy()
+        scribble(got)
+        other_kind = ARG_KINDS[(ARG_KINDS.index(argkind) + 1 + (len(r1) and int(abs(r1[0]) * 4)) % 3) % len(ARG_KINDS)]
+        p1, _ = make_corner(r1 if not (argkind == "ndarray-other-dtype" and dtype == "float64") else [float(x) for x in o1], other_kind, dtype)
+        p2, _ = make_corner(r2 if not (argkind == "ndarray-other-dtype" and dtype == "float64") else [float(x) for x in o2], other_kind, dtype)
+        for what, a1, a2 in (("the same call with the same corner objects", o1, o2), (f"an equal call with the corners as {other_kind}", p1, p2)):
+            if other_kind == "ndarray-other-dtype" and a1 is p1:
+                continue  # the other float width describes a (slightly) different box
+            ctx.count(evaluations=1, traces=1, transitions=1)
+            try:
+                again = gb.rectangular_grid(a1, a2, padding=pad, spacing=sp, dtype=dtype)
+            except Exception as e:
+                sym, det = f"repeated-call-raised-{type(e).__name__}", f"{what} raised {type(e).__name__}: {e}"
+                break
+            sym, det = owned_verdict(got, snap, again, what)
+            if sym:
+                break
+            scribble(again)
+        if not sym:
+            det = counts0
+            got = snap
     if sym:
         c = dict(case)
         c["symptom"] = sym
@@ -1200,7 +1243,17 @@ def samples_job(ctx, agg, arg):
 
 
 def replay(ctx, case):
+    """one case, executed in a forked child: the harness replays every case twice in one process, and a defect that keeps
+    state inside the library (a result cache) would otherwise make the second replay start from the first one's leftovers"""
     agg = Agg()
+    if case["kind"] in ("crash", "kernel-missing"):
+        _replay_here(ctx, agg, case)
+    else:
+        run_forked(ctx, agg, [("replay", lambda sc, sa, c: _replay_here(sc, sa, c, emit=False), case)], 1, 300)
+        agg.emit(ctx, replay_of=case)
+
+
+def _replay_here(ctx, agg, case, emit=True):
     kind = case["kind"]
     if kind == "kernel":
         src = SrcKernels(compile_src(ctx.scratch)) if case["impl"] == "src" else None
@@ -1241,4 +1294,5 @@ def replay(ctx, case):
         lib = compile_src(ctx.scratch)
         impl, fam = m.groups()
         run_forked(ctx, agg, [(case["op"], kernel_job, {"impl": impl, "fam": fam, "seed": ctx.seed, "thorough": False, "lib": str(lib)})], 1, 300)
-    agg.emit(ctx, replay_of=case)
+    if emit:
+        agg.emit(ctx, replay_of=case)
